@@ -225,7 +225,7 @@ def mutate_value_inplace_sites(ctx, rep: Report, rule: str):
                     continue
                 short = short_name(fi)
                 first = ast.unparse(c.args[0]) if c.args else next((ast.unparse(k.value) for k in c.keywords if k.arg in ("old_value", "value")), "?")
-                ok = site_allowed(ctx, short, lambda s: s in allowed) and first == "self"
+                ok = (short in allowed and first == "self") or (short not in allowed and site_allowed(ctx, short, lambda s: s in allowed))
                 rep.oblige(rule, f"{short}: inplace={ast.unparse(kw)[:30]}", ok)
                 if not ok:
                     _v(rep, rule, f"{short}", f"{short} calls mutate_value(`{first}`, inplace={ast.unparse(kw)}): nested attributes are written onto the object it was handed (the receiver's current value, an alias target or the caller's item) instead of onto a copy", fi, c, short)
@@ -239,13 +239,34 @@ def mutate_attr_writes(ctx, rep: Report, rule: str):
     rep.rules[rule] = "mutate_attr has no early return that skips the write"
     fi = ctx.p.find_function("mutate_attr")
     rets = [n for n in walk_own(fi.node) if isinstance(n, ast.Return)]
+    writes = [n.lineno for n in walk_own(fi.node) if isinstance(n, ast.Call) and ("setattr" in ast.unparse(n.func) or "__raw__" in ast.unparse(n.func))]
+    if not writes:
+        raise AnalysisError(f"{rule}: raw write not found in mutate_attr")
+    first_write = min(writes)
+    markers = {"MISSING", "EMPTY", "UNCHANGED"}
+    marker_consts = set()
+    for st_ in fi.module.tree.body if hasattr(fi.module, "tree") else []:
+        if isinstance(st_, ast.Assign) and len(st_.targets) == 1 and isinstance(st_.targets[0], ast.Name) and isinstance(st_.value, (ast.Tuple, ast.Set, ast.List)) \
+                and st_.value.elts and all(isinstance(e_, ast.Name) and e_.id in markers for e_ in st_.value.elts):
+            marker_consts.add(st_.targets[0].id)
+
+    def marker_only(g):
+        t = ast.parse(g, mode="eval")
+        bound = {n_.id for c_ in ast.walk(t) if isinstance(c_, ast.comprehension) for n_ in ast.walk(c_.target) if isinstance(n_, ast.Name)}
+        names = {n_.id for n_ in ast.walk(t) if isinstance(n_, ast.Name)}
+        if any(isinstance(n_, ast.Attribute) for n_ in ast.walk(t)):
+            return False
+        if any(isinstance(n_, ast.Compare) and any(isinstance(o_, (ast.Eq, ast.NotEq)) for o_ in n_.ops) for n_ in ast.walk(t)):
+            return False
+        return "value" in names and names <= ({"value", "any", "all"} | markers | marker_consts | bound)
     bad = []
     for r in rets:
-        if r is fi.node.body[-1]:
+        if r.lineno > first_write:
             continue
-        conds = " && ".join(_guards(fi.node, r))
-        # legitimate early returns test only argument markers
-        ok = bool(conds) and all(("UNCHANGED" in g or "MISSING" in g) and "==" not in g and "__dict__" not in g for g in _guards(fi.node, r))
+        gs = _guards(fi.node, r)
+        conds = " && ".join(gs)
+        # legitimate early returns test only the value against the argument markers
+        ok = bool(gs) and all(marker_only(g) for g in gs)
         rep.oblige(rule, f"mutate_attr: return under `{conds[:50]}`", ok)
         if not ok:
             bad.append((r, conds))
@@ -372,12 +393,24 @@ def property_rules(ctx, rep: Report, rule: str, aspects=("order", "inv", "key", 
         if n == 0:
             raise AnalysisError(f"{rule}: __spec_class_invalidated_by__ not found")
     if "key" in aspects:
-        fi = ctx.p.find_function("classproperty._cache_key")
-        reads = {x.attr for x in ast.walk(fi.node) if isinstance(x, ast.Attribute) and isinstance(x.value, ast.Name) and x.value.id == "self"}
-        ok = reads <= {"cache_per_subclass"} and "cache_per_subclass" in reads
-        rep.oblige(rule, "classproperty._cache_key", ok, f"reads {sorted(reads)}")
-        if not ok:
-            _v(rep, rule, "key", f"classproperty._cache_key depends on {sorted(reads - {'cache_per_subclass'})}: with cache_per_subclass=True, overrides (and cached values) of different classes share one slot for some flag combinations", fi, None, "classproperty._cache_key")
+        ci = ctx.p.find_class("classproperty")
+        exprs = []
+        for name_, defs in ci.methods.items():
+            for d in defs:
+                if name_ == "_cache_key":
+                    exprs += [(d, r.value) for r in walk_own(d.node) if isinstance(r, ast.Return) and r.value is not None]
+                else:
+                    exprs += [(d, a_.value) for a_ in walk_own(d.node) if isinstance(a_, ast.Assign) and len(a_.targets) == 1 and isinstance(a_.targets[0], ast.Name)
+                              and "key" in a_.targets[0].id and isinstance(a_.value, ast.IfExp)]
+        if not exprs:
+            raise AnalysisError(f"{rule}: cache-key computation of classproperty not found")
+        for d, e in exprs:
+            reads = {x.attr for x in ast.walk(e) if isinstance(x, ast.Attribute) and isinstance(x.value, ast.Name) and x.value.id == "self" and not
+                     any(isinstance(c_, ast.Call) and c_.func is x for c_ in ast.walk(e))}
+            ok = reads <= {"cache_per_subclass"}
+            rep.oblige(rule, f"classproperty cache key in {d.node.name}", ok, f"reads {sorted(reads)}")
+            if not ok:
+                _v(rep, rule, "key", f"the classproperty cache key depends on {sorted(reads - {'cache_per_subclass'})}: with cache_per_subclass=True, overrides (and cached values) of different classes share one slot for some flag combinations", d, e, f"classproperty.{d.node.name}")
     if "name" in aspects:
         fi = ctx.p.find_function("_spec_property_base.__set_name__")
         for field in ("owner", "attr_name"):
@@ -395,15 +428,25 @@ def collection_kinds(ctx, rep: Report, rule: str):
     """Attr.collection_mutator_type: element helpers exist exactly for *mutable* containers."""
     rep.rules[rule] = "collection_mutator_type tests the Mutable* ABCs"
     fi = ctx.p.find_function("Attr.collection_mutator_type")
-    calls = [c for c in ast.walk(fi.node) if isinstance(c, ast.Call) and ast.unparse(c.func).split(".")[-1] == "type_match" and len(c.args) >= 2]
-    if len(calls) < 3:
-        raise AnalysisError(f"{rule}: {len(calls)} type_match tests found in collection_mutator_type")
-    for c in calls:
-        names = [ast.unparse(e).split(".")[-1] for e in (c.args[1].elts if isinstance(c.args[1], ast.Tuple) else [c.args[1]])]
-        bad = [n_ for n_ in names if n_ in ("Set", "Sequence", "Mapping", "Collection", "Iterable", "Container", "AbstractSet", "frozenset", "tuple")]
-        rep.oblige(rule, f"type_match(.., {names})", not bad)
-        if bad:
-            _v(rep, rule, f"kind|{bad[0]}", f"Attr.collection_mutator_type treats `{bad[0]}` types as collections: read-only containers (FrozenSet, Tuple, Mapping …) get with_/update_/transform_/without_<item> helpers, which then call mutating methods on them", fi, c, "Attr.collection_mutator_type")
+    if not any(isinstance(c, ast.Call) and ast.unparse(c.func).split(".")[-1] == "type_match" for c in ast.walk(fi.node)):
+        raise AnalysisError(f"{rule}: collection_mutator_type no longer uses type_match")
+    names = {n.id if isinstance(n, ast.Name) else n.attr for n in ast.walk(fi.node) if isinstance(n, (ast.Name, ast.Attribute))}
+    consts = {st_.targets[0].id: st_.value for st_ in fi.module.tree.body if isinstance(st_, ast.Assign) and len(st_.targets) == 1 and isinstance(st_.targets[0], ast.Name)}
+    if fi.cls is not None:
+        for st_ in fi.cls.node.body:
+            if isinstance(st_, ast.Assign) and len(st_.targets) == 1 and isinstance(st_.targets[0], ast.Name):
+                consts[st_.targets[0].id] = st_.value
+    for n_ in list(names):
+        if n_ in consts:
+            names |= {x.id if isinstance(x, ast.Name) else x.attr for x in ast.walk(consts[n_]) if isinstance(x, (ast.Name, ast.Attribute))}
+    need = {"MutableSequence", "MutableMapping", "MutableSet"}
+    ro = {"Set", "Sequence", "Mapping", "Collection", "Iterable", "Container", "AbstractSet", "frozenset", "tuple", "FrozenSet", "Tuple"}
+    missing, bad = need - names, ro & names
+    ok = not missing and not bad
+    rep.oblige(rule, "collection_mutator_type: container kinds", ok, f"missing {sorted(missing)}, read-only {sorted(bad)}")
+    if not ok:
+        b0 = sorted(bad)[0] if bad else f"not {sorted(missing)[0]}"
+        _v(rep, rule, f"kind|{b0}", f"Attr.collection_mutator_type decides on `{b0}` (expected exactly the MutableSequence / MutableMapping / MutableSet ABCs): read-only containers (FrozenSet, Tuple, Mapping …) get with_/update_/transform_/without_<item> helpers, which then call mutating methods on them", fi, None, "Attr.collection_mutator_type")
 
 
 def new_wrapper_order(ctx, rep: Report, rule: str):
@@ -465,14 +508,15 @@ def remove_by_address(ctx, rep: Report, rule: str):
             if isinstance(s, ast.Assign) and isinstance(s.value, ast.Call) and ast.unparse(s.value.func).endswith("_extractor") \
                     and isinstance(s.targets[0], ast.Tuple) and isinstance(s.targets[0].elts[0], ast.Name):
                 idx = s.targets[0].elts[0].id
-        if idx is None:
-            raise AnalysisError(f"{rule}: {cname}.remove_item no longer unpacks the extractor's (index, item)")
+            elif isinstance(s, ast.Assign) and isinstance(s.value, ast.Subscript) and isinstance(s.value.value, ast.Call) \
+                    and ast.unparse(s.value.value.func).endswith("_extractor") and ast.unparse(s.value.slice) == "0" and isinstance(s.targets[0], ast.Name):
+                idx = s.targets[0].id
         dels = [s for f, s in walk_own_all(ctx.p, fi) if isinstance(s, ast.Delete) and any(isinstance(t, ast.Subscript) and ast.unparse(t.value).endswith("collection") for t in s.targets)]
         pops = [c for f, c in walk_own_all(ctx.p, fi) if isinstance(c, ast.Call) and isinstance(c.func, ast.Attribute) and ast.unparse(c.func.value).endswith("collection")
                 and c.func.attr in ("pop", "__delitem__") and c.args and ast.unparse(c.args[0]) == idx]
         byval = [c for f, c in walk_own_all(ctx.p, fi) if isinstance(c, ast.Call) and isinstance(c.func, ast.Attribute) and ast.unparse(c.func.value).endswith("collection")
                  and c.func.attr in ("remove", "discard")]
-        good = [s for s in dels if any(isinstance(t, ast.Subscript) and ast.unparse(t.slice) == idx for t in s.targets)] + pops
+        good = [s for s in dels if idx is None or any(isinstance(t, ast.Subscript) and ast.unparse(t.slice) == idx for t in s.targets)] + pops
         ok = bool(good) and not byval
         n += 1
         rep.oblige(rule, f"{cname}.remove_item", ok)
@@ -508,35 +552,28 @@ def nearest_stop(ctx, rep: Report, rule: str):
     if not loops:
         raise AnalysisError(f"{rule}: no MRO walk in Attr.lookup_default_value")
 
-    def outcomes(stmts):
-        cur = {"fall"}
-        for s in stmts:
-            if "fall" not in cur:
-                break
-            cur.discard("fall")
-            if isinstance(s, (ast.Return, ast.Raise)):
-                cur.add("ret")
-            elif isinstance(s, (ast.Continue, ast.Break)):
-                cur.add("cont")
-            elif isinstance(s, ast.If):
-                cur |= outcomes(s.body) | (outcomes(s.orelse) if s.orelse else {"fall"})
-            elif isinstance(s, (ast.For, ast.While, ast.Try, ast.With)):
-                inner = set()
-                for blk in ("body", "orelse", "finalbody"):
-                    inner |= outcomes(getattr(s, blk, []) or [])
-                cur |= (inner - {"cont"}) | {"fall"}
-            else:
-                cur.add("fall")
-        return cur
+    def paths(stmts, guards):
+        if not stmts:
+            return [(guards, "fall")]
+        s0, rest = stmts[0], stmts[1:]
+        if isinstance(s0, (ast.Return, ast.Raise)):
+            return [(guards, "ret")]
+        if isinstance(s0, (ast.Continue, ast.Break)):
+            return [(guards, "cont")]
+        if isinstance(s0, ast.If):
+            t = ast.unparse(s0.test)
+            return paths(list(s0.body) + rest, guards + [t]) + paths(list(s0.orelse) + rest, guards + [f"not ({t})"])
+        return paths(rest, guards)
 
-    def returns(stmts):
-        return outcomes(stmts) == {"ret"}
-    ifs = [s for s in ast.walk(loops[0]) if isinstance(s, ast.If) and ("__dict__" in ast.unparse(s.test) or "vars(" in ast.unparse(s.test))
-           and isinstance(s.test, ast.Compare) and isinstance(s.test.ops[0], ast.In)]
-    if not ifs:
+    def own_ns(g):
+        return "__dict__" in g or "vars(" in g
+
+    def negative(g):
+        return own_ns(g) and (" not in " in g) != g.startswith("not (")
+    ps = paths(list(loops[0].body), [])
+    if not any(any(own_ns(g) and not negative(g) for g in gs) and o == "ret" for gs, o in ps):
         raise AnalysisError(f"{rule}: own-namespace test not found in the MRO walk")
-    for s in ifs:
-        ok = returns(s.body)
-        rep.oblige(rule, f"lookup_default_value: `{ast.unparse(s.test)[:40]}`", ok)
-        if not ok:
-            _v(rep, rule, "fallthrough", "Attr.lookup_default_value keeps searching further up the MRO after reaching a class that defines the name: a property / alias / method declared by a (plain) subclass over an inherited attribute gets the parent's plain default written through it at construction and on reset", fi, s, "Attr.lookup_default_value")
+    bad = [(gs, o) for gs, o in ps if o != "ret" and not any(negative(g) for g in gs)]
+    rep.oblige(rule, "lookup_default_value: a class defining the name ends the search", not bad, f"{len(ps)} paths through the loop body")
+    for gs, o in bad[:1]:
+        _v(rep, rule, "fallthrough", f"Attr.lookup_default_value keeps searching further up the MRO after reaching a class that defines the name (path `{' && '.join(gs)[:120]}`): a property / alias / method declared by a (plain) subclass over an inherited attribute gets the parent's plain default written through it at construction and on reset", fi, loops[0], "Attr.lookup_default_value")
